@@ -55,23 +55,23 @@ macro_rules! auto_zeroize {
     };
 }
 
-//@ harness name=aes128_zeroize prop=C16 tier=quick bits=5640 stub=1 variants=aes:ni+zeroize est=150 need=6 desc="drop of an arbitrary-state autodetect Aes128 zeroes every byte of the live union arm, whichever arm detection selected (CPUID symbolic, detection run for real)"
+//@ harness name=aes128_zeroize prop=C16 tier=quick bits=5640 stub=1 variants=aes:ni+zeroize est=80 need=6 desc="drop of an arbitrary-state autodetect Aes128 zeroes every byte of the live union arm, whichever arm detection selected (CPUID symbolic, detection run for real)"
 auto_zeroize!(aes128_zeroize, crate::autodetect::Aes128, crate::ni::Aes128);
-//@ harness name=aes128enc_zeroize prop=C16 tier=quick bits=5640 stub=1 variants=aes:ni+zeroize est=100 need=5 desc="drop of an arbitrary-state autodetect Aes128Enc zeroes the live arm (CPUID symbolic)"
+//@ harness name=aes128enc_zeroize prop=C16 tier=quick bits=5640 stub=1 variants=aes:ni+zeroize est=65 need=5 desc="drop of an arbitrary-state autodetect Aes128Enc zeroes the live arm (CPUID symbolic)"
 auto_zeroize!(aes128enc_zeroize, crate::autodetect::Aes128Enc, crate::ni::Aes128Enc);
-//@ harness name=aes128dec_zeroize prop=C16 tier=quick bits=5640 stub=1 variants=aes:ni+zeroize est=90 need=5 desc="drop of an arbitrary-state autodetect Aes128Dec zeroes the live arm (CPUID symbolic)"
+//@ harness name=aes128dec_zeroize prop=C16 tier=quick bits=5640 stub=1 variants=aes:ni+zeroize est=65 need=5 desc="drop of an arbitrary-state autodetect Aes128Dec zeroes the live arm (CPUID symbolic)"
 auto_zeroize!(aes128dec_zeroize, crate::autodetect::Aes128Dec, crate::ni::Aes128Dec);
-//@ harness name=aes192_zeroize prop=C16 tier=quick bits=6664 stub=1 variants=aes:ni+zeroize est=160 need=7 desc="drop of an arbitrary-state autodetect Aes192 zeroes the live arm (CPUID symbolic)"
+//@ harness name=aes192_zeroize prop=C16 tier=quick bits=6664 stub=1 variants=aes:ni+zeroize est=240 need=7 desc="drop of an arbitrary-state autodetect Aes192 zeroes the live arm (CPUID symbolic)"
 auto_zeroize!(aes192_zeroize, crate::autodetect::Aes192, crate::ni::Aes192);
-//@ harness name=aes192enc_zeroize prop=C16 tier=quick bits=6664 stub=1 variants=aes:ni+zeroize est=135 need=6 desc="drop of an arbitrary-state autodetect Aes192Enc zeroes the live arm"
+//@ harness name=aes192enc_zeroize prop=C16 tier=quick bits=6664 stub=1 variants=aes:ni+zeroize est=90 need=6 desc="drop of an arbitrary-state autodetect Aes192Enc zeroes the live arm"
 auto_zeroize!(aes192enc_zeroize, crate::autodetect::Aes192Enc, crate::ni::Aes192Enc);
-//@ harness name=aes192dec_zeroize prop=C16 tier=quick bits=6664 stub=1 variants=aes:ni+zeroize est=160 need=6 desc="drop of an arbitrary-state autodetect Aes192Dec zeroes the live arm"
+//@ harness name=aes192dec_zeroize prop=C16 tier=quick bits=6664 stub=1 variants=aes:ni+zeroize est=210 need=6 desc="drop of an arbitrary-state autodetect Aes192Dec zeroes the live arm"
 auto_zeroize!(aes192dec_zeroize, crate::autodetect::Aes192Dec, crate::ni::Aes192Dec);
-//@ harness name=aes256_zeroize prop=C16 tier=quick bits=7688 stub=1 variants=aes:ni+zeroize est=180 need=9 desc="drop of an arbitrary-state autodetect Aes256 zeroes the live arm (CPUID symbolic)"
+//@ harness name=aes256_zeroize prop=C16 tier=quick bits=7688 stub=1 variants=aes:ni+zeroize est=270 need=9 desc="drop of an arbitrary-state autodetect Aes256 zeroes the live arm (CPUID symbolic)"
 auto_zeroize!(aes256_zeroize, crate::autodetect::Aes256, crate::ni::Aes256);
-//@ harness name=aes256enc_zeroize prop=C16 tier=quick bits=7688 stub=1 variants=aes:ni+zeroize est=160 need=6 desc="drop of an arbitrary-state autodetect Aes256Enc zeroes the live arm"
+//@ harness name=aes256enc_zeroize prop=C16 tier=quick bits=7688 stub=1 variants=aes:ni+zeroize est=240 need=6 desc="drop of an arbitrary-state autodetect Aes256Enc zeroes the live arm"
 auto_zeroize!(aes256enc_zeroize, crate::autodetect::Aes256Enc, crate::ni::Aes256Enc);
-//@ harness name=aes256dec_zeroize prop=C16 tier=quick bits=7688 stub=1 variants=aes:ni+zeroize est=160 need=6 desc="drop of an arbitrary-state autodetect Aes256Dec zeroes the live arm"
+//@ harness name=aes256dec_zeroize prop=C16 tier=quick bits=7688 stub=1 variants=aes:ni+zeroize est=100 need=6 desc="drop of an arbitrary-state autodetect Aes256Dec zeroes the live arm"
 auto_zeroize!(aes256dec_zeroize, crate::autodetect::Aes256Dec, crate::ni::Aes256Dec);
 
 // The intrinsics-arm and software-arm types themselves (what the union arms hold): every byte zero after drop.
@@ -97,13 +97,13 @@ macro_rules! plain_zeroize {
         }
     };
 }
-//@ harness name=ni_aes128_zeroize prop=C16 tier=quick bits=2816 variants=aes:ni+zeroize est=60 need=4 desc="drop of an arbitrary-state ni::Aes128 (both round-key arrays) leaves every byte zero"
+//@ harness name=ni_aes128_zeroize prop=C16 tier=quick bits=2816 variants=aes:ni+zeroize est=45 need=4 desc="drop of an arbitrary-state ni::Aes128 (both round-key arrays) leaves every byte zero"
 plain_zeroize!(ni_aes128_zeroize, crate::ni::Aes128);
-//@ harness name=ni_aes256dec_zeroize prop=C16 tier=quick bits=1920 variants=aes:ni+zeroize est=40 desc="drop of an arbitrary-state ni::Aes256Dec leaves every byte zero"
+//@ harness name=ni_aes256dec_zeroize prop=C16 tier=quick bits=1920 variants=aes:ni+zeroize est=35 desc="drop of an arbitrary-state ni::Aes256Dec leaves every byte zero"
 plain_zeroize!(ni_aes256dec_zeroize, crate::ni::Aes256Dec);
-//@ harness name=soft_aes128_zeroize prop=C16 tier=quick bits=5632 variants=aes:ni+zeroize est=95 need=4 desc="drop of an arbitrary-state soft::Aes128 (fixsliced round keys) leaves every byte zero"
+//@ harness name=soft_aes128_zeroize prop=C16 tier=quick bits=5632 variants=aes:ni+zeroize est=45 need=4 desc="drop of an arbitrary-state soft::Aes128 (fixsliced round keys) leaves every byte zero"
 plain_zeroize!(soft_aes128_zeroize, crate::soft::Aes128);
-//@ harness name=soft_aes192dec_zeroize prop=C16 tier=quick bits=6656 variants=aes:ni+zeroize est=110 need=4 desc="drop of an arbitrary-state soft::Aes192Dec leaves every byte zero"
+//@ harness name=soft_aes192dec_zeroize prop=C16 tier=quick bits=6656 variants=aes:ni+zeroize est=70 need=4 desc="drop of an arbitrary-state soft::Aes192Dec leaves every byte zero"
 plain_zeroize!(soft_aes192dec_zeroize, crate::soft::Aes192Dec);
-//@ harness name=soft_aes256enc_zeroize prop=C16 tier=quick bits=7680 variants=aes:ni+zeroize est=110 need=6 desc="drop of an arbitrary-state soft::Aes256Enc leaves every byte zero"
+//@ harness name=soft_aes256enc_zeroize prop=C16 tier=quick bits=7680 variants=aes:ni+zeroize est=75 need=6 desc="drop of an arbitrary-state soft::Aes256Enc leaves every byte zero"
 plain_zeroize!(soft_aes256enc_zeroize, crate::soft::Aes256Enc);
